@@ -16,6 +16,11 @@ CHECKS = {
             "on the reference device, which logs what each command did. Observed: every set/create command and its blocks are ACL-covered; no uncovered line (whose ancestors were never "
             "removed) is removed or altered; no line covered only by not-deletable rules disappears; applying the ACL beforehand as production does yields the same patch.",
             "Trusted: R3 (vf/ref/acl.py), R2/R4 (rule selection, device). ACL patterns are key-granular w.r.t. the rulebook; %ordered lists exempt from clause (c).", "4/C02"),
+    "C03": ("law monitors on real diffs (projection/reconstruction, op exactness, self-diff) + reference structural diff + signed-text readers for both operator views",
+            "For generated rulebooks with the standard diff logics and generated pairs of trees, the real make_diff output is checked against the laws of the statement "
+            "(both inputs reconstructable, exact ops, empty self-diff), against an independent reference diff (MOVED iff the preceding sequence differs, rewrite units, "
+            "UNCHANGED marking), and both operator-facing texts (formatter.diff, gen_pre_as_diff) are read back by independent parsers and compared with the diff entries.",
+            "Trusted: R2 rule selection, vf/ref/diff.py, the two signed-text readers. Vendor-specific diff logics out of scope (aruba excluded).", "4/C03"),
     "C05": ("reference-model monitor (independent offside parser) over exhaustive small scope + random texts",
             "Every text in an exhaustively enumerated small scope (all indentation vectors up to 6/7 lines over columns 0..6, "
             "with comment/blank/section-break insertions) and seeded random longer texts is parsed by the real parse_to_tree "
